@@ -22,7 +22,7 @@ from type_inference.research import reference_algebra as _ra     # rendering onl
 
 ID = 'C05'
 BUDGET = {'quick': 320, 'thorough': 6000}       # generated base programs
-WALL = {'quick': 900, 'thorough': 5400}
+WALL = {'quick': 1500, 'thorough': 7200}
 RULE = ('base programs from the typed generator (numbers, strings, lists, closed records '
         'and field access, if-then-else, boolean propositions, aggregation incl. '
         'multi-body, combines in all syntaxes, negation, implication, disjunction, '
